@@ -1,0 +1,17 @@
+//go:build verif
+
+package concurrent
+
+// Machine-checked restriction on the unlocked operations of the concurrent slice
+// (see /verif/DESIGN.md, C11).  This file contains no declarations: it only carries
+// specification comments that the elkvc verification-condition generator reads.
+
+/*@
+// Slice[V] has a locked and an unlocked variant of every operation.  The unlocked push is
+// correct only on a slice no other goroutine can reach: the per-method checker's private method
+// cache, filled by Checker.addToMethodCache.  The parent checker's cache, into which the
+// concurrently running method checkers register methods used in constant initialisers, must be
+// appended to with the locked Push.  The clause restricts, on the syntax of the whole
+// repository, which functions may call (or take the value of) PushUnsafe.
+callers (*Slice).PushUnsafe only addToMethodCache for C11
+@*/
